@@ -19,4 +19,10 @@ CLAIMED = {
   "text": "spec/graph/Fanout.tla models WithServicesTransform (main, collector, one worker per service, buffered channel, errgroup cancellation, non-atomic access brackets on the shared Services field); TLC checks exact results, first-error propagation, joining, absence of overlapping conflicting accesses, deadlock freedom and termination for 0..3 (4) services and every failing subset. Every completion order x failing subset for 0..4 (5; 6 sampled) services is then forced on the real code by holding each callback at a gate, in a -race build. spec/graph/Traversal.tla (C13) covers the traversal; its gate-scheduled executions are repeated under -race with per-service result checks. spec/graph/SharedState.tla takes the inventory of package-level variables written at run time (extracted from /repo's source with go/parser, with a guarded-by-lock flag) and checks that concurrent loads cannot overlap on them and stay independent; its workloads (which loads carry `version:` etc.) are run from 2..8 (16) goroutines under -race and every concurrent result is compared with the same load run alone.",
   "note": "Data-race freedom itself is decided by the Go race detector on the executions driven (sampling of real schedules beyond the gate-controlled ones); TLC decides the protocol-level claims and predicts which variables can race. Each load gets its own copy of the environment map (equal inputs, not shared mutable arguments).",
  },
+ "C07": {
+  "level": "model_checking",
+  "technique": "TLA+ grammar/evaluator spec enumerated exhaustively by TLC (states = cases with spec-defined value), replayed on template.Substitute and on full loads",
+  "text": "spec/text/Template.tla defines the interpolation grammar as an AST with Render and Eval (written from the Compose grammar). TLC enumerates every template up to the size bound x 16 variable states, checks algebraic laws of the evaluator on each, and the harness replays every state on the real Substitute (and a slice through loader.LoadWithContext). spec/text/TemplateStrings.tla classifies every string over an 11-symbol alphabet up to length 5 (6) as clean / malformed / complex by a scanner written from the grammar: clean strings must give the exact value, malformed ones an error, all of them must return without panic.",
+  "note": "Exhaustive within the bounds (names {A,b_1}, 4 literals, nesting depth 1 (2 in thorough)); deeper nesting is not enumerated. Strings of class complex are only checked for totality (their exact value is covered by the grammar enumeration).",
+ },
 }
